@@ -242,10 +242,11 @@ class LeaderNode(Entity):
             vector_clock=vc_snapshot,
         )
 
-        # Apply locally
-        yield from self._store.put(key, value)
-        self._versions[key] = versioned
-        self._merkle.update(key, value)
+        # Apply locally. The put takes the store's write latency; a replicated version of
+        # the same key may be installed meanwhile, so the local version goes through the
+        # same merge as a remote one at the instant it lands.
+        yield self._store.write_latency
+        self._install(key, versioned, count=True)
 
         # Replicate to all peers
         events = []
@@ -314,38 +315,57 @@ class LeaderNode(Entity):
             vector_clock=remote_vc,
         )
 
-        existing = self._versions.get(key)
-
-        if existing is None:
-            # No local version — apply
-            yield from self._store.put(key, value)
-            self._versions[key] = incoming
-            self._merkle.update(key, value)
-        else:
-            # Compare vector clocks
-            existing_vc = existing.vector_clock or {}
-            incoming_vc = incoming.vector_clock or {}
-
-            if _vc_dominates(incoming_vc, existing_vc):
-                # Incoming is newer — apply
-                yield from self._store.put(key, value)
-                self._versions[key] = incoming
-                self._merkle.update(key, value)
-            elif _vc_dominates(existing_vc, incoming_vc):
-                # Existing is newer — discard
-                pass
-            else:
-                # Concurrent — conflict!
-                self._conflicts_detected += 1
-                winner = self._resolver.resolve(key, [existing, incoming])
-                self._conflicts_resolved += 1
-
-                if winner is not existing:
-                    yield from self._store.put(key, winner.value)
-                    self._versions[key] = winner
-                    self._merkle.update(key, winner.value)
-
+        yield from self._merge_version(key, incoming)
         return None
+
+    def _pick(
+        self, key: str, existing: VersionedValue | None, incoming: VersionedValue, count: bool
+    ) -> VersionedValue:
+        """Choose between the local version and an incoming one (vector clocks, then resolver)."""
+        if existing is None:
+            return incoming
+        existing_vc = existing.vector_clock or {}
+        incoming_vc = incoming.vector_clock or {}
+        if _vc_dominates(incoming_vc, existing_vc):
+            return incoming
+        if _vc_dominates(existing_vc, incoming_vc):
+            return existing
+        # Concurrent — conflict
+        if count:
+            self._conflicts_detected += 1
+        winner = self._resolver.resolve(key, [existing, incoming])
+        if count:
+            self._conflicts_resolved += 1
+        return winner
+
+    def _install(self, key: str, incoming: VersionedValue, count: bool) -> bool:
+        """Merge ``incoming`` into the local state at the current instant (no latency).
+
+        Returns True if the local version changed.
+        """
+        existing = self._versions.get(key)
+        winner = self._pick(key, existing, incoming, count)
+        if winner is existing:
+            return False
+        self._store.put_sync(key, winner.value)
+        self._versions[key] = winner
+        self._merkle.update(key, winner.value)
+        return True
+
+    def _merge_version(
+        self, key: str, incoming: VersionedValue
+    ) -> Generator[float, None, bool]:
+        """Merge a remote version, paying the store's write latency only if it would apply.
+
+        The decision is taken again when the write lands: another version of the key may have
+        been installed during the latency, and applying in arrival order would let replicas
+        that receive the same versions in different orders end up with different values.
+        """
+        existing = self._versions.get(key)
+        if self._pick(key, existing, incoming, count=True) is existing:
+            return False
+        yield self._store.write_latency
+        return self._install(key, incoming, count=False)
 
     def _handle_anti_entropy(
         self,
@@ -409,29 +429,8 @@ class LeaderNode(Entity):
                 writer_id=vdata["writer_id"],
                 vector_clock=vdata.get("vector_clock"),
             )
-            existing = self._versions.get(key)
-            if existing is None:
-                yield from self._store.put(key, remote_vv.value)
-                self._versions[key] = remote_vv
-                self._merkle.update(key, remote_vv.value)
+            if (yield from self._merge_version(key, remote_vv)):
                 self._anti_entropy_keys_repaired += 1
-            else:
-                existing_vc = existing.vector_clock or {}
-                remote_vc = remote_vv.vector_clock or {}
-                if _vc_dominates(remote_vc, existing_vc):
-                    yield from self._store.put(key, remote_vv.value)
-                    self._versions[key] = remote_vv
-                    self._merkle.update(key, remote_vv.value)
-                    self._anti_entropy_keys_repaired += 1
-                elif not _vc_dominates(existing_vc, remote_vc):
-                    self._conflicts_detected += 1
-                    winner = self._resolver.resolve(key, [existing, remote_vv])
-                    self._conflicts_resolved += 1
-                    if winner is not existing:
-                        yield from self._store.put(key, winner.value)
-                        self._versions[key] = winner
-                        self._merkle.update(key, winner.value)
-                        self._anti_entropy_keys_repaired += 1
 
         if remote_hash == self._merkle.root_hash:
             # After reconciliation, if hashes match, no need to respond
@@ -482,32 +481,8 @@ class LeaderNode(Entity):
                 vector_clock=vdata.get("vector_clock"),
             )
 
-            existing = self._versions.get(key)
-            if existing is None:
-                # New key — apply
-                yield from self._store.put(key, remote_vv.value)
-                self._versions[key] = remote_vv
-                self._merkle.update(key, remote_vv.value)
+            if (yield from self._merge_version(key, remote_vv)):
                 self._anti_entropy_keys_repaired += 1
-            else:
-                existing_vc = existing.vector_clock or {}
-                remote_vc = remote_vv.vector_clock or {}
-
-                if _vc_dominates(remote_vc, existing_vc):
-                    yield from self._store.put(key, remote_vv.value)
-                    self._versions[key] = remote_vv
-                    self._merkle.update(key, remote_vv.value)
-                    self._anti_entropy_keys_repaired += 1
-                elif not _vc_dominates(existing_vc, remote_vc):
-                    # Concurrent — resolve
-                    self._conflicts_detected += 1
-                    winner = self._resolver.resolve(key, [existing, remote_vv])
-                    self._conflicts_resolved += 1
-                    if winner is not existing:
-                        yield from self._store.put(key, winner.value)
-                        self._versions[key] = winner
-                        self._merkle.update(key, winner.value)
-                        self._anti_entropy_keys_repaired += 1
 
         return None
 
